@@ -358,12 +358,12 @@ def part_h(seed, tier, deadline):
                 # lambdas of the function under test), the mates run to completion, the actor finishes: every position
                 # when there are few, a spread sample otherwise; then <= 3-preemption and random schedules
                 a = counts[0]
-                npos = 6 if tier == 'quick' else 16
+                npos = 6 if tier == 'quick' else 10
                 cuts = list(range(1, a)) if a - 1 <= npos else sorted(rng.sample(range(1, a), npos))
                 scheds = [[0] * j + [i for i in range(1, k) for _ in range(counts[i])] for j in cuts]
                 scheds = [(sc, 'preempt') for sc in scheds]
-                scheds += [(sc, 'preempt') for sc in c18.preemption_schedules(counts, 3, 3 if tier == 'quick' else 20, rng)]
-                for _ in range(2 if tier == 'quick' else 4):
+                scheds += [(sc, 'preempt') for sc in c18.preemption_schedules(counts, 3, 3 if tier == 'quick' else 8, rng)]
+                for _ in range(2):
                     sc = [i for i, c in enumerate(counts) for _ in range(c)]
                     rng.shuffle(sc)
                     scheds.append((sc, 'random'))
